@@ -5,6 +5,8 @@ import (
 	"bytes"
 	"fmt"
 	"math/big"
+	"sync"
+	"sync/atomic"
 
 	"github.com/wollac/iota-crypto-demo/pkg/ed25519"
 	"github.com/wollac/iota-crypto-demo/pkg/vrf"
@@ -18,7 +20,7 @@ func init() {
 	fw.Register(&fw.Prop{
 		ID:       "C18",
 		Parallel: 4, // cases are judged on 4 goroutines per shard: the library functions are stateless, shared state inside them shows up as wrong verdicts
-		Rule: "prove: (seed, alpha) with alpha of every length 0..700 (thorough 0..2200) and around 2^10..2^13, proof bytes compared with the RFC 9381 model, then Verify/ProofToHash/Proof.Hash/SetBytes/MarshalBinary agreement; verify: (key, alpha, proof) triples judged two-sidedly against the model: honest, every single-bit flip of honest proofs, Gamma+T for the 8 torsion points, non-canonical and undecodable Gamma, s+L / s in {L-1, L, L+1}, random 80-byte strings, lengths 0..100, wrong keys, every small-order key encoding (canonical and not), all 38 y>=p key encodings, undecodable keys, and forged proofs that would verify for small-order keys if validate_key were dropped; decode: SetBytes/UnmarshalBinary/ProofToHash succeed iff the model decodes, and re-encode to the input; unique: all accepted proofs for one (key, alpha) give one hash. " +
+		Rule: "prove: (seed, alpha) with alpha of every length 0..700 (thorough 0..2200) and around 2^10..2^13, proof bytes compared with the RFC 9381 model, then Verify/ProofToHash/Proof.Hash/SetBytes/MarshalBinary agreement; verify: (key, alpha, proof) triples judged two-sidedly against the model: honest, every single-bit flip of honest proofs, Gamma+T for the 8 torsion points, non-canonical and undecodable Gamma, s+L / s in {L-1, L, L+1}, random 80-byte strings, lengths 0..100, wrong keys, every small-order key encoding (canonical and not), all 38 y>=p key encodings, undecodable keys, and forged proofs that would verify for small-order keys if validate_key were dropped; decode: SetBytes/UnmarshalBinary/ProofToHash succeed iff the model decodes, and re-encode to the input; unique: all accepted proofs for one (key, alpha) give one hash. reuse: eight decodes into ONE Proof object (SetBytes/UnmarshalBinary mixed, undecodable inputs in between): Bytes() and Hash() must describe the bytes decoded last. related: back-to-back Prove/Verify on equal-length alphas that share a long prefix. concurrent: 16 goroutines call Verify/Prove at once against precomputed expectations. " +
 			"Non-trivial: distinct cases outside the purely random classes.",
 		Assumptions: []string{"SHA-512 of the Go standard library", "math/big", "the RFC 9381 model in harness/oracle/ecvrf (self-tested against the three RFC 9381 ECVRF-EDWARDS25519-SHA512-TAI examples)"},
 		SelfTest:    ecvrf.SelfTest,
@@ -31,10 +33,12 @@ func init() {
 				return map[string]string{"seed": fw.Hex(p[0]), "alpha": fw.Hex(p[1])}
 			case "decode":
 				return map[string]string{"proof_bytes": fw.Hex(p[0])}
+			case "reuse", "related", "concurrent":
+				return map[string]interface{}{"seed": fw.GetU64(p[0]), "scenario": map[string]string{"reuse": "eight decodes into one reused Proof object (SetBytes / UnmarshalBinary mixed)", "related": "four back-to-back Prove/Verify calls on equal-length alphas sharing a long prefix", "concurrent": "16 goroutines call Verify and Prove at once"}[class]}
 			}
 			return map[string]string{"public_key": fw.Hex(p[0]), "alpha": fw.Hex(p[1]), "proof": fw.Hex(p[2])}
 		},
-		Required: []string{"prove ok", "verify model=accept impl=accept", "verify model=reject impl=reject", "decode model=ok impl=ok", "decode model=fail impl=fail", "unique checked"},
+		Required: []string{"prove ok", "verify model=accept impl=accept", "verify model=reject impl=reject", "decode model=ok impl=ok", "decode model=fail impl=fail", "unique checked", "reuse executions", "related executions", "concurrent executions"},
 	})
 }
 
@@ -56,6 +60,12 @@ func judge(class string, key []byte, o *fw.Obs) {
 		judgeDecode(p[0], o)
 	case "unique":
 		judgeUnique(p[0], p[1], p[2], o)
+	case "reuse":
+		judgeReuse(fw.GetU64(p[0]), o)
+	case "related":
+		judgeRelated(fw.GetU64(p[0]), o)
+	case "concurrent":
+		judgeConcurrent(fw.GetU64(p[0]), o)
 	default:
 		judgeVerify(class, p[0], p[1], p[2], o)
 	}
@@ -193,6 +203,185 @@ func judgeDecode(x []byte, o *fw.Obs) {
 	if !bytes.Equal(h, mh) || !bytes.Equal(pr2.Hash(), mh) {
 		o.Fail("hash", "ProofToHash(%x) = %x, model %x", x, h, mh)
 	}
+}
+
+// judgeReuse: ONE Proof object is decoded into again and again (SetBytes and UnmarshalBinary mixed, with
+// undecodable inputs in between); after every successful decode Bytes() and Hash() must describe the bytes
+// decoded last, as Verify and ProofToHash do.
+func judgeReuse(seed uint64, o *fw.Obs) {
+	o.Nontrivial()
+	r := fw.SubRng(int64(seed), "c18-reuse")
+	sk := make([]byte, 32)
+	r.Read(sk)
+	var priv ed25519.PrivateKey
+	if !o.Try("NewKeyFromSeed", func() { priv = vrf.NewKeyFromSeed(sk) }) {
+		return
+	}
+	obj := new(vrf.Proof)
+	for step := 0; step < 8; step++ {
+		alpha := make([]byte, r.Intn(40))
+		r.Read(alpha)
+		var pi []byte
+		if !o.Try("Prove", func() { pi = vrf.Prove(priv, alpha).Bytes() }) {
+			return
+		}
+		if r.Intn(4) == 0 { // an undecodable input in between
+			bad := append([]byte(nil), pi...)
+			bad[79] |= 0xf0
+			o.Try("UnmarshalBinary(invalid)", func() { _ = obj.UnmarshalBinary(bad) })
+		}
+		var err error
+		var back, h []byte
+		how := "SetBytes"
+		if !o.Try("decode into a reused Proof", func() {
+			if r.Intn(2) == 0 {
+				how = "UnmarshalBinary"
+				err = obj.UnmarshalBinary(pi)
+			} else {
+				_, err = obj.SetBytes(pi)
+			}
+			if err == nil {
+				h = obj.Hash() // first Hash call after the decode
+				back = obj.Bytes()
+				h = obj.Hash()
+			}
+		}) {
+			return
+		}
+		want, _ := ecvrf.ProofToHash(pi)
+		if want == nil {
+			// the library produced a proof the model cannot decode: the prove class reports that
+			return
+		}
+		if err != nil || !bytes.Equal(back, pi) || !bytes.Equal(h, want) {
+			o.Fail("reuse", "decode %d into one reused Proof object via %s: err=%v, Bytes()=%x, Hash()=%x; the bytes decoded last are %x with hash %x", step+1, how, err, back, h, pi, want)
+			return
+		}
+		o.Count("reuse: decodes into one Proof object checked")
+	}
+	o.Count("reuse executions")
+}
+
+// judgeRelated: consecutive Prove/Verify calls under one key on alphas of equal length that share a long
+// prefix (they differ in one late byte): results must not leak from one call to the next.
+func judgeRelated(seed uint64, o *fw.Obs) {
+	o.Nontrivial()
+	r := fw.SubRng(int64(seed), "c18-related")
+	sk := make([]byte, 32)
+	r.Read(sk)
+	mpub, _, _ := ed.PublicFromSeed(sk)
+	lens := []int{17, 33, 65, 66, 100, 129, 130, 200, 257, 300}
+	n := lens[r.Intn(len(lens))]
+	base := make([]byte, n)
+	r.Read(base)
+	var priv ed25519.PrivateKey
+	if !o.Try("NewKeyFromSeed", func() { priv = vrf.NewKeyFromSeed(sk) }) {
+		return
+	}
+	var prevPi []byte
+	for step := 0; step < 4; step++ {
+		alpha := append([]byte(nil), base...)
+		if step > 0 {
+			alpha[n-1-r.Intn(1+n/8)] ^= byte(1 + r.Intn(255)) // differs from the base only near the end
+		}
+		want := ecvrf.Prove(sk, alpha)
+		var pi []byte
+		var ok, okPrev bool
+		var beta []byte
+		if !o.Try("Prove/Verify", func() {
+			pi = vrf.Prove(priv, alpha).Bytes()
+			ok, beta = vrf.Verify(vrf.PublicKey(priv[32:]), alpha, pi)
+			if prevPi != nil {
+				okPrev, _ = vrf.Verify(vrf.PublicKey(priv[32:]), alpha, prevPi)
+			}
+		}) {
+			return
+		}
+		if !bytes.Equal(pi, want) {
+			o.Fail("proof", "call %d on alphas of length %d sharing a long prefix: Prove = %x, RFC 9381 model gives %x", step+1, n, pi, want)
+			return
+		}
+		_, mbeta := ecvrf.Verify(mpub, alpha, want)
+		if !ok || !bytes.Equal(beta, mbeta) {
+			o.Fail("verdict", "call %d on alphas sharing a long prefix: Verify of the fresh proof = %v, hash %x; model accepts with %x", step+1, ok, beta, mbeta)
+			return
+		}
+		if prevPi != nil {
+			if mok, _ := ecvrf.Verify(mpub, alpha, prevPi); mok != okPrev {
+				o.Fail("verdict", "the proof of the previous alpha (same length, differs near the end) verified against this alpha: Verify = %v, model %v", okPrev, mok)
+				return
+			}
+		}
+		prevPi = pi
+		o.Count("related: back-to-back calls on prefix-sharing alphas checked")
+	}
+	o.Count("related executions")
+}
+
+// judgeConcurrent: Verify and Prove from many goroutines at once; expectations are computed beforehand.
+func judgeConcurrent(seed uint64, o *fw.Obs) {
+	o.Nontrivial()
+	r := fw.SubRng(int64(seed), "c18-concurrent")
+	type item struct {
+		priv       ed25519.PrivateKey
+		pub, alpha []byte
+		pi, beta   []byte
+		valid      bool
+	}
+	var items []item
+	for i := 0; i < 6; i++ {
+		sk := make([]byte, 32)
+		r.Read(sk)
+		alpha := make([]byte, r.Intn(60))
+		r.Read(alpha)
+		pi := ecvrf.Prove(sk, alpha)
+		pub, _, _ := ed.PublicFromSeed(sk)
+		_, beta := ecvrf.Verify(pub, alpha, pi)
+		var priv ed25519.PrivateKey
+		if !o.Try("NewKeyFromSeed", func() { priv = vrf.NewKeyFromSeed(sk) }) {
+			return
+		}
+		items = append(items, item{priv, pub, alpha, pi, beta, true})
+		bad := append([]byte(nil), pi...)
+		bad[40] ^= 1
+		if ok, _ := ecvrf.Verify(pub, alpha, bad); !ok {
+			items = append(items, item{priv, pub, alpha, bad, nil, false})
+		}
+	}
+	const G = 16
+	var wg sync.WaitGroup
+	var bad atomic.Value
+	for g := 0; g < G; g++ {
+		wg.Add(1)
+		go func(g int) {
+			defer wg.Done()
+			defer func() {
+				if x := recover(); x != nil {
+					bad.Store(fmt.Sprintf("panic in a concurrent call: %v", x))
+				}
+			}()
+			for n := 0; n < 400 && bad.Load() == nil; n++ {
+				it := items[(n*(g+1)+g)%len(items)]
+				ok, beta := vrf.Verify(vrf.PublicKey(it.pub), it.alpha, it.pi)
+				if ok != it.valid || (ok && !bytes.Equal(beta, it.beta)) {
+					bad.Store(fmt.Sprintf("with %d goroutines verifying at once, Verify(%x, %x, %x) = %v hash %x; expected %v hash %x", G, it.pub, it.alpha, it.pi, ok, beta, it.valid, it.beta))
+					return
+				}
+				if it.valid && n%8 == 0 {
+					if pi := vrf.Prove(it.priv, it.alpha).Bytes(); !bytes.Equal(pi, it.pi) {
+						bad.Store(fmt.Sprintf("with %d goroutines at work, Prove = %x, expected %x", G, pi, it.pi))
+						return
+					}
+				}
+			}
+		}(g)
+	}
+	wg.Wait()
+	if b := bad.Load(); b != nil {
+		o.Fail("concurrent", "%s", b.(string))
+		return
+	}
+	o.Count("concurrent executions")
 }
 
 // judgeUnique: for one (key, alpha) every proof variant the implementation
@@ -490,6 +679,15 @@ func gen(g *fw.Gen) {
 			x[79] &= 0x0f
 		}
 		g.Emit("decode", fw.Pack(x))
+	}
+	for n := g.ShareOf(300, 15000); n > 0; n-- {
+		g.Emit("reuse", fw.Pack(fw.U64(g.Rng.Uint64())))
+	}
+	for n := g.ShareOf(200, 10000); n > 0; n-- {
+		g.Emit("related", fw.Pack(fw.U64(g.Rng.Uint64())))
+	}
+	for n := g.ShareOf(32, 1600); n > 0; n-- {
+		g.Emit("concurrent", fw.Pack(fw.U64(g.Rng.Uint64())))
 	}
 	// uniqueness
 	for n := g.ShareOf(200, 10000); n > 0; n-- {
